@@ -526,7 +526,7 @@ class C17(Prop):
     assumptions = ['runs as root: permission bits are not enforced, read-only directories are modelled by EACCES injection',
                    'two real processes are modelled by the deterministic writer/reader interleaving (thorough adds none beyond that)',
                    'workers run under an 8 GiB address-space limit: allocation bombs of corrupted pickles show as MemoryError (which parse() must survive), not as an out-of-memory kill of the machine']
-    budgets = {'quick': 2000, 'thorough': 60000}
+    budgets = {'quick': 2000, 'thorough': 240000}
     time_caps = {'quick': 200, 'thorough': 1500}
     shrink_fields = ()
     min_nontrivial_fraction = 0.05
